@@ -1603,7 +1603,9 @@ class HeapInterp:
             if name in ("split", "splitlines", "rsplit", "partition", "rpartition"):
                 o = Obj("list")
                 o.elem = string(rp | allp)
-                o.val = "split"
+                # the pieces of a token (KEY=value -> KEY, value) are a different thing from the tokens of a line
+                blank_sep = not a or (a[0].kind == "const" and (a[0].val is None or (isinstance(a[0].val, str) and a[0].val.strip() == "")))
+                o.val = None if (blank_sep and name in ("split", "rsplit") and not any(x.startswith("@idx") for x in rp)) else "split"
                 return o
             if name in ("strip", "rstrip", "lstrip", "lower", "upper", "replace", "removeprefix", "removesuffix", "ljust", "rjust",
                         "zfill", "format", "expandtabs", "title", "capitalize", "center", "casefold"):
